@@ -25,6 +25,7 @@ LEAN_TARGETS = ["NfcVerif.Props.C12", "drv_c12"]
 THEOREMS = [
     "NfcVerif.C12.isodep_at_most_once",
     "NfcVerif.C12.isodep_response_exact",
+    "NfcVerif.C12.isodep_send_apdu_exact",
     "NfcVerif.C12.isodep_error_kind",
     "NfcVerif.C12.isodep_block_bound",
     "NfcVerif.C12.isodep_block_bound_derived",
